@@ -23,7 +23,7 @@ import time
 from concurrent.futures import ThreadPoolExecutor
 
 ROOT = os.path.dirname(os.path.dirname(os.path.abspath(__file__)))
-REPO = "/repo"
+REPO = os.environ.get("VERIF_REPO", "/repo")
 CACHE = os.path.join(ROOT, ".cache")
 SPEC = os.path.join(ROOT, "spec")
 HARNESS = os.path.join(ROOT, "harness")
